@@ -745,6 +745,30 @@ func (fx *FuncCtx) stepPhi(st *State, x *ssa.Phi) {
 func (fx *FuncCtx) stepRange(st *State, x *ssa.Range) {
 	v := fx.val(st, x.X)
 	fx.vals[x] = &Val{T: v.T, Ty: x.X.Type()}
+	if mt, ok := x.X.Type().Underlying().(*types.Map); ok {
+		// ghost set of keys already visited by this iteration
+		name, cs := fx.rangeVisComp(x, mt)
+		fx.heapGet(st, name, cs)
+		st.Heap[name] = "((as const " + cs + ") false)"
+	}
+}
+
+// rangeVisComp names the visited-set component of a map range loop (numbered in source order).
+func (fx *FuncCtx) rangeVisComp(x *ssa.Range, mt *types.Map) (string, string) {
+	n := 0
+	for _, b := range fx.fn.Blocks {
+		for _, ins := range b.Instrs {
+			if r, ok := ins.(*ssa.Range); ok {
+				if _, isMap := r.X.Type().Underlying().(*types.Map); isMap {
+					n++
+					if r == x {
+						return fmt.Sprintf("RV$%d", n), "(Array " + fx.u.sortOf(mt.Key()) + " Bool)"
+					}
+				}
+			}
+		}
+	}
+	return "RV$0", "(Array " + fx.u.sortOf(mt.Key()) + " Bool)"
 }
 
 func (fx *FuncCtx) stepNext(st *State, x *ssa.Next) {
@@ -765,6 +789,16 @@ func (fx *FuncCtx) stepNext(st *State, x *ssa.Next) {
 	has := "(select (select " + fx.heapGet(st, hn, hs) + " " + it.T + ") " + k.T + ")"
 	val := "(select (select " + fx.heapGet(st, vn, vs) + " " + it.T + ") " + k.T + ")"
 	fx.assume(st, imp(okV, and("(not (= "+it.T+" 0))", has)))
+	if rng, ok := x.Iter.(*ssa.Range); ok {
+		// each key is visited exactly once; iteration ends when all keys have been visited
+		name, cs := fx.rangeVisComp(rng, mt)
+		vis := fx.heapGet(st, name, cs)
+		fx.assume(st, imp(okV, "(not (select "+vis+" "+k.T+"))"))
+		ks := fx.u.sortOf(mt.Key())
+		fx.assume(st, imp(not(okV), "(forall ((k!v "+ks+")) (=> (and (not (= "+it.T+" 0)) (select (select "+fx.heapGet(st, hn, hs)+" "+it.T+") k!v)) (select "+vis+" k!v)))"))
+		fx.logStore(name, "*")
+		st.Heap[name] = fx.define("rv", cs, "(ite "+okV+" (store "+vis+" "+k.T+" true) "+vis+")")
+	}
 	v := &Val{T: fx.define("nxv", fx.u.sortOf(mt.Elem()), val), Ty: mt.Elem()}
 	fx.assume(st, imp(okV, fx.wf(st, v.T, mt.Elem(), 0)))
 	fx.vals[x] = &Val{Ty: x.Type(), Tup: []*Val{{T: okV, Ty: types.Typ[types.Bool]}, k, v}}
